@@ -582,7 +582,10 @@ func runC14(p *core.Prog, r *core.Report) {
 		}
 		r.Check(okErr, "C14.R6", "computeGraph/closure-error", "an unknown output module is an error", "ModulesDownTo error ignored", p.Pos(fn.Pos()))
 	})
+	r.Guard("C14.R6", "closure/ModulesDownTo", "ancestor closure", func() { checkClosureFn(p, r, "C14.R6", "ModuleGraph.ModulesDownTo", 0, false) })
+	r.Guard("C14.R6", "closure/StoresDownTo", "ancestor closure", func() { checkClosureFn(p, r, "C14.R6", "ModuleGraph.StoresDownTo", 0, true) })
 	r.MinInstances("C14.R1", 2)
 	r.MinInstances("C14.R3", 4)
+	r.MinInstances("C14.R6", 9)
 	r.MinInstances("C14.R5", 4)
 }
